@@ -27,6 +27,9 @@
 #include "multitensor/solver.hpp"
 #include "multitensor/tensor.hpp"
 #include "multitensor/utils.hpp"
+#ifdef MULTITENSOR_VERIF
+#include "multitensor/verif_hooks.hpp"
+#endif
 
 //! Multitensor namespace
 namespace multitensor
@@ -177,6 +180,40 @@ utils::Report multitensor_factorization(const std::vector<vertex_t> &edges_start
             "[multitensor] Number of convergences should be at least 1, intead got " +
             std::to_string(nof_convergences) + "\n");
     }
+
+#ifdef MULTITENSOR_VERIF
+    if (verif::observer())
+    {
+        verif::CallInfo verif_info;
+        verif_info.directed = std::is_same_v<direction_t, boost::bidirectionalS>;
+        verif_info.assortative = std::is_same_v<affinity_t, tensor::DiagonalTensor<double>>;
+        verif_info.init_random = std::is_same_v<affinity_init_t, initialization::init_symmetric_tensor_random>;
+        verif_info.init_from_file =
+            std::is_same_v<affinity_init_t, initialization::init_symmetric_tensor_from_initial<affinity_t>>;
+        verif_info.weight_integral = std::is_integral_v<weight_t>;
+        verif_info.nof_groups = nof_groups;
+        verif_info.nof_layers = nof_layers;
+        verif_info.nof_vertices = nof_vertices;
+        verif_info.nof_realizations = nof_realizations;
+        verif_info.max_nof_iterations = max_nof_iterations;
+        verif_info.nof_convergences = nof_convergences;
+        verif_info.seed = static_cast<long long>(random_generator.seed);
+        for (const auto &x : edges_start)
+        {
+            verif_info.edges_start.push_back(verif::to_label_string(x));
+        }
+        for (const auto &x : edges_end)
+        {
+            verif_info.edges_end.push_back(verif::to_label_string(x));
+        }
+        for (const auto &x : edges_weight)
+        {
+            verif_info.edges_weight.push_back(static_cast<double>(x));
+        }
+        verif_info.affinity = affinity;
+        verif::observer()->call_start(verif_info);
+    }
+#endif
 
     // Start timer
     using clock_t = std::chrono::high_resolution_clock;
